@@ -7,7 +7,7 @@ open Mxl.C07 (resEq)
 
 /-- **Round trip (partial).**  If every builder reference of the generated program resolves to the
     definition generated from its own function object and every definition has distinct parameters
-    (`refsResolve`, a decidable function of the input that excludes exactly F-C11-1 and F-C11-2), then
+    (`refsResolve`, a decidable function of the input that excludes exactly F-C11-1 and repeated arguments), then
     executing the generated source rebuilds *the same model*: same names, kinds, argument lists, plain
     values and the same functions.  `Canonical` is the representation invariant of `List Rat → Rat`
     standing for a Python function of fixed arity. -/
@@ -23,6 +23,27 @@ theorem C11_roundtrip_input (c : NContent) (hc : Canonical c)
     (hk : keysInjective c = true) (ha : argsNoDup c = true) :
     roundTrip [] c = .ok c.toContent :=
   roundTrip_ok c hc (refsResolve_of_input c hk ha)
+
+/-- **Round trip: the model is rebuilt, or generation fails** (the form of the claim; repeated arguments
+    allowed since `fix: refuse to generate a Python function whose parameter list repeats a name`).  If every
+    builder reference resolves to the definition generated from its own function object (`refsSrcOk`, excludes
+    exactly F-C11-1), executing the generated source rebuilds the same model, or no source is produced because
+    generation raised ValueError. -/
+theorem C11_roundtrip_or_raises (c : NContent) (hc : Canonical c) (h : refsSrcOk c = true) :
+    roundTrip [] c = .ok c.toContent ∨ ∃ m, roundTrip [] c = .error (.valueError m) :=
+  roundTrip_or_raises c hc h
+
+/-- … with the hypothesis on the input alone: no key shared by two different function objects -/
+theorem C11_roundtrip_or_raises_input (c : NContent) (hc : Canonical c) (hk : keysInjective c = true) :
+    roundTrip [] c = .ok c.toContent ∨ ∃ m, roundTrip [] c = .error (.valueError m) :=
+  roundTrip_or_raises c hc (refsSrcOk_of_input c hk)
+
+/-- … and in terms of behaviour: whenever the round trip produces a model at all, it is the original -/
+theorem C11_roundtrip_behaviour_or_raises (c : NContent) (hc : Canonical c) (hk : keysInjective c = true)
+    (c' : Content) (h : roundTrip [] c = .ok c') : c' = c.toContent := by
+  rcases roundTrip_or_raises c hc (refsSrcOk_of_input c hk) with h1 | ⟨m, h1⟩
+  · rw [h1] at h; cases h; rfl
+  · rw [h1] at h; cases h
 
 example : keysInjective wShared = true ∧ argsNoDup wShared = true
     ∧ keysInjective wCross = true ∧ argsNoDup wCross = true
@@ -60,9 +81,12 @@ theorem C11_collision_witness :
     ∧ resEq (rtCall [] wCollide 0 [1]) (.ok [-6]) = false
     ∧ refsResolve wCollide = false := by decide +kernel
 
-/-- F-C11-2 witness: `def mass_action_2s(A, A, k)` — the generated module is not Python -/
+/-- former F-C11-2 witness (repaired): `mass_action_2s(A, A, k)` would be emitted as
+    `def mass_action_2s(A, A, k)`; generation now raises ValueError instead of emitting a module that is not
+    Python.  The witness satisfies the hypothesis of `C11_roundtrip_or_raises`, not that of the exact theorem. -/
 theorem C11_repeated_argument_witness :
-    isSyntaxError (roundTrip [] wDimer) = true ∧ refsResolve wDimer = false := by decide +kernel
+    isValueError (roundTrip [] wDimer) = true ∧ refsSrcOk wDimer = true ∧ keysInjective wDimer = true
+    ∧ refsResolve wDimer = false := by decide +kernel
 
 /-- **Sharing is harmless.**  One function object serving three components with different and swapped
     argument lists, plus an initial assignment and a computed coefficient (keys `init_add`,
